@@ -26,10 +26,11 @@ CONSTANTS Main, Workers, \* the main thread and the worker threads (strings: the
           SoftLimit,    \* transit_events_soft_limit (1: _poll always takes the batch branch)
           WaitEmpty,    \* BackendOptions::wait_for_queues_to_empty_before_exit (FALSE: _exit() does not drain; then only
                         \* the signal clause of C07 is asserted)
-          Variant,      \* "code" | "exit_ignores_rings" | "no_final_flush" | "no_once_regen" | "reraise_before_flush"
+          Variant,      \* "code" | "exit_ignores_rings" | "exit_until_nothing_cached" (a defect iff Grace) | "no_final_flush" | "no_once_regen" | "reraise_before_flush"
                         \* | "exit0_for_fatal" | "spawn_unmasked" | "cleanup_nonempty" (defects: an invariant must fail)
                         \* | "graceful_exit_no_flush" (SIGINT/SIGTERM: exit() without flush_log; a defect iff ~WaitEmpty)
                         \* | "no_atexit" (harmless in the model: static destruction still stops and drains)
+          Grace,        \* TRUE: a non-zero log_timestamp_ordering_grace_period - a statement can be read only after time has passed (Age)
           Export        \* TRUE: keep the program history and print it when the process ends
 C == INSTANCE LifeContract
 Threads == {Main} \cup Workers
@@ -37,7 +38,9 @@ Threads == {Main} \cup Workers
 VARIABLES
   pc, ret, hsig, hscope, nlog,         \* frontend threads: program counter, continuation of stop(), signal handled
                                        \* (and whether it hit while the backend was up), statements logged
-  q, ring, fbuf, disk, flag,           \* the pipeline per thread; flag[t] = flush_log's backend_thread_flushed
+  q, young, ring, fbuf, disk, flag,    \* the pipeline per thread; flag[t] = flush_log's backend_thread_flushed;
+                                       \* young[t] = how many statements at the END of q[t] are still younger than the timestamp-
+                                       \* ordering grace period (the backend's read stops in front of them)
   ctx, cache, newFlag,                 \* ThreadContext registry, backend's _active_thread_contexts_cache, new_thread_context_flag
   runFlag, bpc, bmask, btid,           \* _is_worker_running, backend thread pc / signal mask, _worker_thread_id # 0
   ctxTid, once, atexitN, xleft, xcode, endKind, starts,
@@ -46,7 +49,7 @@ VARIABLES
   must, expectUp, sigInfo,             \* ghosts: promised statements, "backend must be up", first signal raised
   hist
 fe == <<pc, ret, hsig, hscope, nlog>>
-pipe == <<q, ring, fbuf, disk, flag>>
+pipe == <<q, young, ring, fbuf, disk, flag>>
 reg == <<ctx, cache, newFlag>>
 bk == <<runFlag, bpc, bmask, btid>>
 lf == <<ctxTid, once, atexitN, xleft, xcode, endKind, starts>>
@@ -61,7 +64,7 @@ Init ==
   /\ pc = [t \in Threads |-> "run"] /\ ret = [t \in Threads |-> "run"] /\ hsig = [t \in Threads |-> "-"]
   /\ hscope = [t \in Threads |-> FALSE]
   /\ nlog = [t \in Threads |-> 0]
-  /\ q = Empty /\ ring = Empty /\ fbuf = Empty /\ disk = Empty /\ flag = [t \in Threads |-> FALSE]
+  /\ q = Empty /\ young = [t \in Threads |-> 0] /\ ring = Empty /\ fbuf = Empty /\ disk = Empty /\ flag = [t \in Threads |-> FALSE]
   /\ ctx = [t \in Threads |-> "none"] /\ cache = {} /\ newFlag = FALSE
   /\ runFlag = FALSE /\ bpc = "none" /\ bmask = FALSE /\ btid = FALSE
   /\ ctxTid = FALSE /\ once = "fresh" /\ atexitN = 0 /\ xleft = 0 /\ xcode = 0 /\ endKind = "none" /\ starts = 0
@@ -85,7 +88,7 @@ FlushFile == /\ disk' = [t \in Threads |-> disk[t] \o fbuf[t]] /\ fbuf' = Empty
 Log(t) ==
   /\ Alive /\ pc[t] = "run" /\ nlog[t] < MaxStmts
   /\ nlog' = [nlog EXCEPT ![t] = @ + 1]
-  /\ q' = [q EXCEPT ![t] = Append(@, C!Stmt(t, nlog[t] + 1))]
+  /\ q' = [q EXCEPT ![t] = Append(@, C!Stmt(t, nlog[t] + 1))] /\ young' = [young EXCEPT ![t] = IF Grace THEN @ + 1 ELSE 0]
   /\ IF ctx[t] = "none" THEN ctx' = [ctx EXCEPT ![t] = "valid"] /\ newFlag' = TRUE ELSE UNCHANGED <<ctx, newFlag>>
   /\ hist' = H("log", t, "-")
   /\ UNCHANGED <<pc, ret, hsig, hscope, ring, fbuf, disk, flag, cache, bk, lf, sg, gh, outcome>>
@@ -170,8 +173,14 @@ SumLen(f, S) == IF S = {} THEN 0 ELSE LET t == CHOOSE x \in S : TRUE IN Len(f[t]
 \* _populate_transit_events_from_frontend_queues: every cached context, everything that is in its queue. (The code
 \* reads the contexts one after the other; a log call slipping in between two reads is, for each single thread,
 \* the same as one slipping in before or after this step, and C07 is a per-thread statement.)
-Populate(S) == /\ ring' = [t \in Threads |-> IF t \in S THEN ring[t] \o q[t] ELSE ring[t]]
-               /\ q' = [t \in Threads |-> IF t \in S THEN <<>> ELSE q[t]]
+\* With a grace period the read of a queue stops in front of the first statement that is still too young (ts_now = now - grace).
+Old(t) == Len(q[t]) - young[t]
+Populate(S) == /\ ring' = [t \in Threads |-> IF t \in S THEN ring[t] \o SubSeq(q[t], 1, Old(t)) ELSE ring[t]]
+               /\ q' = [t \in Threads |-> IF t \in S THEN SubSeq(q[t], Old(t) + 1, Len(q[t])) ELSE q[t]]
+               /\ UNCHANGED young
+\* time passes: the oldest of a thread's young statements becomes readable
+Age(t) == /\ Alive /\ young[t] > 0 /\ young' = [young EXCEPT ![t] = @ - 1]
+          /\ UNCHANGED <<fe, q, ring, fbuf, disk, flag, reg, bk, lf, sg, gh, outcome, hist>>
 
 \* while (_is_worker_running.load()) _poll();  then _exit().
 \* _poll: _update_active_thread_contexts_cache, populate, then one event / a batch / the idle branch
@@ -182,7 +191,7 @@ BTop ==
           /\ cache' = c2 /\ newFlag' = FALSE /\ Populate(c2)
           /\ LET cnt == SumLen(ring', c2)
              IN bpc' = IF cnt = 0 THEN "i_flush" ELSE IF cnt < SoftLimit THEN "p_one" ELSE "p_batch"
-     ELSE /\ bpc' = "e_check" /\ UNCHANGED <<cache, newFlag, q, ring>>
+     ELSE /\ bpc' = "e_check" /\ UNCHANGED <<cache, newFlag, q, young, ring>>
   /\ UNCHANGED <<fe, fbuf, disk, flag, ctx, runFlag, bmask, btid, lf, sg, gh, outcome, hist>>
 
 \* _process_lowest_timestamp_transit_event for thread t: a statement is fwritten to the sink (stdio buffer);
@@ -201,7 +210,7 @@ BOne ==
      THEN \E t \in cache : ring[t] # <<>> /\ ProcessFront(t)
      ELSE UNCHANGED <<ring, fbuf, disk, flag, cache, ctx>>      \* all transit buffers empty: returns false
   /\ bpc' = "b_top"
-  /\ UNCHANGED <<fe, q, newFlag, runFlag, bmask, btid, lf, sg, gh, outcome, hist>>
+  /\ UNCHANGED <<fe, q, young, newFlag, runFlag, bmask, btid, lf, sg, gh, outcome, hist>>
 
 \* while (!has_pending_events_for_caching_when_transit_event_buffer_empty() && _process_lowest_timestamp_transit_event())
 BBatch ==
@@ -213,7 +222,7 @@ BBatch ==
      THEN /\ bpc' = back /\ cache' = c2 /\ newFlag' = FALSE /\ UNCHANGED <<ring, fbuf, disk, flag, ctx>>
      ELSE /\ \E t \in cache : ring[t] # <<>> /\ ProcessFront(t)
           /\ UNCHANGED <<bpc, newFlag>>
-  /\ UNCHANGED <<fe, q, runFlag, bmask, btid, lf, sg, gh, outcome, hist>>
+  /\ UNCHANGED <<fe, q, young, runFlag, bmask, btid, lf, sg, gh, outcome, hist>>
 
 \* idle branch of _poll: _flush_and_run_active_sinks(true, sink_min_flush_interval): flushes only if the interval elapsed
 BIdleFlush ==
@@ -221,7 +230,7 @@ BIdleFlush ==
   /\ \/ FlushFile
      \/ UNCHANGED <<fbuf, disk>>
   /\ bpc' = "i_check"
-  /\ UNCHANGED <<fe, q, ring, flag, reg, runFlag, bmask, btid, lf, sg, gh, outcome, hist>>
+  /\ UNCHANGED <<fe, q, young, ring, flag, reg, runFlag, bmask, btid, lf, sg, gh, outcome, hist>>
 
 \* _check_frontend_queues_and_cached_transit_events_empty; if so clean up contexts and sleep (timeout or notify)
 BIdleCheck ==
@@ -240,7 +249,10 @@ BExitCheck ==
   /\ LET c2 == UpdCache IN
      /\ cache' = c2 /\ newFlag' = FALSE
      /\ IF ~WaitEmpty \/ (IF Variant = "exit_ignores_rings" THEN QueuesEmpty(c2) ELSE AllEmpty(c2))
-        THEN bpc' = "e_flush" /\ UNCHANGED <<q, ring>>
+           \* defect "exit_until_nothing_cached": the drain ends as soon as a read pass caches nothing - statements still too young
+           \* to be read stay in the queues
+           \/ (Variant = "exit_until_nothing_cached" /\ \A t \in c2 : ring[t] = <<>> /\ Old(t) = 0)
+        THEN bpc' = "e_flush" /\ UNCHANGED <<q, young, ring>>
         ELSE bpc' = "e_batch" /\ Populate(c2)
   /\ UNCHANGED <<fe, fbuf, disk, flag, ctx, runFlag, bmask, btid, lf, sg, gh, outcome, hist>>
 
@@ -251,7 +263,7 @@ BExitFlush ==
   /\ LET rm == Removable(cache) IN
      /\ cache' = cache \ rm /\ ctx' = [u \in Threads |-> IF u \in rm THEN "removed" ELSE ctx[u]]
   /\ bpc' = "none"
-  /\ UNCHANGED <<fe, q, ring, flag, newFlag, runFlag, bmask, btid, lf, sg, gh, outcome, hist>>
+  /\ UNCHANGED <<fe, q, young, ring, flag, newFlag, runFlag, bmask, btid, lf, sg, gh, outcome, hist>>
 
 (* ------------------------------------------------------------------ Backend::stop / stop_backend_thread *)
 StopCall(t) ==
@@ -321,6 +333,7 @@ ExManual(t) ==
          wr == [u \in Threads |-> fbuf[u] \o SelectSeq(all[u], LAMBDA it : it.k # "f")] IN
      /\ cache' = c2 /\ newFlag' = FALSE
      /\ q' = [u \in Threads |-> IF u \in c2 /\ ~skip THEN <<>> ELSE q[u]]
+     /\ young' = [u \in Threads |-> IF u \in c2 /\ ~skip THEN 0 ELSE young[u]]      \* (the drain waits for them: time passes inside)
      /\ ring' = [u \in Threads |-> IF u \in c2 /\ ~skip THEN <<>> ELSE ring[u]]
      /\ flag' = [u \in Threads |-> flag[u] \/ \E i \in 1..Len(all[u]) : all[u][i].k = "f"]
      /\ IF Variant = "no_final_flush" THEN fbuf' = wr /\ UNCHANGED disk
@@ -333,7 +346,7 @@ ExStatic(t) ==
   /\ Alive /\ pc[t] = "ex_static"
   /\ FlushFile
   /\ outcome' = C!Exited(xcode)
-  /\ UNCHANGED <<fe, q, ring, flag, reg, bk, lf, sg, gh, hist>>
+  /\ UNCHANGED <<fe, q, young, ring, flag, reg, bk, lf, sg, gh, hist>>
 
 (* ------------------------------------------------------------------ signals *)
 KilledBy(s) == outcome' = C!Killed(s)       \* stdio buffer and queues die with the process: disk stays as it is
@@ -376,7 +389,7 @@ HTid(t) ==
 \* get_logger(); "Received signal: ..." goes through the signalled thread's own queue
 HLog(t) ==
   /\ Alive /\ pc[t] = "h_log"
-  /\ q' = [q EXCEPT ![t] = Append(@, C!Notice(hsig[t]))]
+  /\ q' = [q EXCEPT ![t] = Append(@, C!Notice(hsig[t]))] /\ young' = [young EXCEPT ![t] = IF Grace THEN @ + 1 ELSE 0]
   /\ IF hsig[t] \in C!Graceful /\ Variant = "graceful_exit_no_flush"
      THEN BeginExit(t, 0)                                       \* relies on the exit-time drain of the atexit stop
      ELSE Goto(t, IF hsig[t] \in C!Graceful THEN "h_flush" ELSE "h_crit") /\ UNCHANGED <<xleft, xcode>>
@@ -386,14 +399,14 @@ HLog(t) ==
 \* "Program terminated unexpectedly ..."
 HCrit(t) ==
   /\ Alive /\ pc[t] = "h_crit"
-  /\ q' = [q EXCEPT ![t] = Append(@, C!Crit(hsig[t]))]
+  /\ q' = [q EXCEPT ![t] = Append(@, C!Crit(hsig[t]))] /\ young' = [young EXCEPT ![t] = IF Grace THEN @ + 1 ELSE 0]
   /\ Goto(t, IF Variant = "reraise_before_flush" THEN "h_dfl" ELSE "h_flush")
   /\ UNCHANGED <<ret, hsig, hscope, nlog, ring, fbuf, disk, flag, reg, bk, lf, sg, gh, outcome, hist>>
 
 \* flush_log(0): enqueue the Flush event ...
 HFlush(t) ==
   /\ Alive /\ pc[t] = "h_flush"
-  /\ q' = [q EXCEPT ![t] = Append(@, C!FlushReq)] /\ flag' = [flag EXCEPT ![t] = FALSE]
+  /\ q' = [q EXCEPT ![t] = Append(@, C!FlushReq)] /\ flag' = [flag EXCEPT ![t] = FALSE] /\ young' = [young EXCEPT ![t] = IF Grace THEN @ + 1 ELSE 0]
   /\ Goto(t, "h_wait")
   /\ UNCHANGED <<ret, hsig, hscope, nlog, ring, fbuf, disk, reg, bk, lf, sg, gh, outcome, hist>>
 
@@ -452,7 +465,7 @@ Calls == \E t \in Threads : \/ StMask(t) \/ StSpawn(t) \/ StWait(t) \/ StCtx(t) 
 Handler == \/ \E t \in Threads : HLock(t) \/ HAlarm(t) \/ HTid(t) \/ HLog(t) \/ HCrit(t) \/ HFlush(t) \/ HWait(t) \/ HDfl(t) \/ HRaise(t)
            \/ AlarmFires \/ \E s \in Sigs : DeliverBackend(s)
 BackendStep == BInit \/ BTop \/ BOne \/ BBatch \/ BIdleFlush \/ BIdleCheck \/ BExitCheck \/ BExitFlush
-Step == Program \/ Calls \/ Handler \/ BackendStep
+Step == Program \/ Calls \/ Handler \/ BackendStep \/ (\E t \in Threads : Age(t))
 Next == Step \/ Terminated
 Spec == Init /\ [][Next]_vars
 SimSpec == Init /\ [][Step]_vars
@@ -473,7 +486,8 @@ SigOK == (outcome.kind # "none" /\ sigInfo.t # "-" /\ sigInfo.scope) =>
 \* the file never holds anything but a prefix of each thread's stream, in order (structure, not C07)
 DiskShape == \A t \in Threads :
                LET d == SelectSeq(disk[t] \o fbuf[t], LAMBDA it : it.k = "s") IN \A i \in 1..Len(d) : d[i] = C!Stmt(t, i)
-TypeOK == /\ hlock \in 0..2 /\ xleft \in 0..MaxStarts /\ atexitN \in 0..MaxStarts
+TypeOK == /\ \A t \in Threads : young[t] \in 0..Len(q[t]) /\ (~Grace => young[t] = 0)
+          /\ hlock \in 0..2 /\ xleft \in 0..MaxStarts /\ atexitN \in 0..MaxStarts
           /\ cache \subseteq Threads /\ (bpc = "none" => ~runFlag \/ ~Alive)
 
 (* ------------------------------------------------------------------ scenario export (simulation mode) *)
